@@ -17,39 +17,37 @@ Proved here (emit side + input forms, for ALL inputs):
   * `c03_emit_denotes` — (= C04's `c04_conforms`) the bytes `to_boc` emits for a spec-valid typed tree `t` denote, under the
     independent strict reader, exactly `[t]`.
 
-THE COMPOSITION (to be assembled by the coordinator once the parser model of C05 is merged):
-
-  theorem c03_roundtrip (H) (t : Cell) (wf : TreeWF H t) (ty : Typed t) (p) (hb : Cell.build H t = some p) (nc : NoCollision p)
-      (fuel) (ord) (h : p.order fuel = some ord) (o : Opts) (hv : o.valid) (hn …) (hP …) :
-      ∃ bs, p.toBoc fuel o = some bs ∧
-        ∀ form ∈ [Sum.inl bs, Sum.inr (hexEnc bs), Sum.inr (b64Enc bs)],
-          (inputBytes form).bind (BocParse.deserialize H) = some [p']   with  p'.info = p.info, scellOf p' = toSCell t
-          (identical hash = `info.hash`, identical bits / type / refs recursively)
-
-  It needs from the parser model (lean/TonVerif/Model/BocParse.lean, owner `bocin`) exactly:
-    BocParse.deserialize : (H : Bytes → Bytes) → Bytes → Option (List PCell)     -- model of `Boc.deserialize` (header + cells + rebuild, roots)
-  and ONE lemma about it (the parser-side twin of `strictParse_toBoc`; it is C05's `c05_accepts` restricted to the
-  emitter's freedoms: minimal widths, no stored hashes, one root, b5ee9c72 magic):
-    BocParse.deserialize_of_strict :
-      Spec.Boc.strictFlat bs = some ⟨recs, roots⟩ → Spec.Boc.evalRecs H recs = some vals →
-      ∃ ps, BocParse.deserialize H bs = some ps ∧
-        ps.map scellOf = roots.filterMap (fun i => (vals[recs.length - 1 - i]?).map (·.2))
-        ∧ (each p' ∈ ps is `Cell.build H` of its denoted tree)
-  Then `c03_roundtrip` = `c03_forms_emit` (the three forms give `bs`) ∘ `c04_conforms`/`c03_emit_denotes`
-  (`strictParse H bs = some [toSCell t]`, whose proof exposes `strictFlat bs` and `evalRecs`: Proofs.BocEmit.strictFlat_emit,
-  Proofs.BocSem.evalRecs_order) ∘ `deserialize_of_strict`; hash equality follows from `Cell.build` being a function of the tree
-  (`Proofs.BocSem.build_sem`: `Cell.info H t = some p.info`).
-  Entry points: `Slice.one_from_boc = (deserialize …)[0].begin_parse()`, `Builder.one_from_boc = (…)[0].to_builder()`
-  (Model/Builder.lean images of the root cell; `to_builder` refuses exotic roots — known finding).
+THE COMPOSITION — proved here (helpers: Proofs/BocRoundTrip.lean):
+  * `c03_roundtrip` — THE PROPERTY.  For every spec-valid typed tree `t` (C02's `TreeWF`, `Typed`), the object graph `p` that
+    `Cell.__init__` builds for it, under the local `NoCollision p`, every fuel for which the model of `Cell.order` returns, each of
+    the 6 valid option sets (within the format's own limits: < 2^32 cells, doubled payload < 2^64): the model of `to_boc`
+    returns bytes `bs`, and the model of `Cell.from_boc` (Model/BocParse.lean: `deserialize_boc_header`, `deserialize_cell`,
+    the rebuild loop, the cell constructor) applied to `bs`, to the hex text of `bs` and to the base64 text of `bs` — through
+    BOTH models of `Boc.__init__` (`BocForms.inputBytes`, the reference model with CPython's non-strict decoder, and
+    `BocParse.bocInit`) — returns exactly ONE root `(t', i')` with `t' = t` (identical kinds/types, data bits and references,
+    recursively) and `i' = p.info` (the identical cached hashes, depths and level mask, hence the identical hash).
+    Route: the emitted bytes ARE `Spec.BocEncode.encodeWith fr cells [0]` for the library's freedoms `fr` (generic magic,
+    minimal size width, minimal offset width from the doubled length with cache bits, no stored hashes, one root) and the
+    listing `cells` of the order (`toBoc_eq_encodeWith`), that listing is `Valid` and denotes the unfoldings of the ordered cells
+    (`valid_order`, `denote_order`), so C05's `c05_accepts` applies.
+  * `c03_roundtrip_total` — with existence of `p` and termination of `Cell.order` for the driver's fuel.
+  * `c03_entry_cell`, `c03_entry_slice`, `c03_entry_builder` — the three `one_from_boc` entry points (Model/BocEntry.lean) on
+    the three input forms: `Cell.one_from_boc` returns that root; `Slice.one_from_boc` returns the slice holding all data
+    bits and all references of the root; `Builder.one_from_boc` returns the builder holding exactly the root's bits and
+    references when the root is ordinary and RAISES when the root is exotic (`to_builder` refuses exotic cells: the
+    recorded known finding `builder-entry:exotic-root-refused`).
+  * `c03_store_cell` — the `store_cell` fact behind the Builder entry point.
 -/
 import TonVerif.Proofs.BocEmit
 import TonVerif.Proofs.BocForms
 import TonVerif.Proofs.BocSemFinal
 import TonVerif.Model.Builder
+import TonVerif.Model.BocEntry
+import TonVerif.Proofs.BocRoundTrip
 
 namespace TonVerif.Properties.C03
 open TonVerif TonVerif.Model TonVerif.Model.BocForms TonVerif.Spec.Boc TonVerif.Proofs.BocEmit TonVerif.Proofs.BocForms
-  TonVerif.Proofs.BocOrder TonVerif.Proofs.BocSem TonVerif.Proofs.CellSpec
+  TonVerif.Proofs.BocOrder TonVerif.Proofs.BocSem TonVerif.Proofs.CellSpec TonVerif.Proofs.BocRoundTrip TonVerif.Model.BocEntry
 
 /-- emit half of the round trip: the emitted bytes decode (independent strict reader, byte-level layer) to exactly the
 records that were serialised, with root index 0 — for every record list / valid order and all 6 option sets. -/
@@ -129,17 +127,172 @@ theorem c03_forms_emit (o : Opts) (as : List ARec) (hv : o.valid = true) (h1 : 1
   have := c03_forms _ hwf
   simpa [bodyOf, bocMagic, List.append_assoc] using this
 
-/-- `c03_entrypoints` (Builder): `Builder.one_from_boc` returns `cells[0].to_builder()` = `Builder().store_cell(cell)`; for an
-ordinary cell within the cell limits this never raises and the builder holds exactly the root's data bits and references
-(so `end_cell()` rebuilds the same cell).  (`Slice.one_from_boc` returns `cells[0].begin_parse()` = a slice over copies of the
-root's bits and refs — there is nothing to prove.  For an exotic root `to_builder` raises on purpose: known finding.) -/
-theorem c03_entry_builder {R : Type} (bits : Bits) (refs : List R) (hb : bits.length ≤ 1023) (hr : refs.length ≤ 4) :
+/-- the `store_cell` fact behind the Builder entry point: `Builder().store_cell(cell)` on a cell within the cell limits never
+raises and the builder holds exactly the cell's data bits and references (so `end_cell()` rebuilds the same cell). -/
+theorem c03_store_cell {R : Type} (bits : Bits) (refs : List R) (hb : bits.length ≤ 1023) (hr : refs.length ≤ 4) :
     BOp.storeCell bits refs (Builder.empty : Builder R) = (⟨bits, refs⟩, true) := by
   have h1 : ¬ (refs.length > 4) := by omega
   have h2 : ¬ (bits.length > 1023) := by omega
   simp [BOp.storeCell, BOp.extend, Builder.empty, h1, h2]
 
-/-! Non-vacuity. -/
+/-- **C03, THE ROUND TRIP.**  `t` ranges over all spec-valid trees of cells (any kinds incl. pruned / library / Merkle cells, any
+nesting and sharing) whose exotic cells carry their type byte; `p` is the object graph `Cell.__init__` builds; `NoCollision p`
+the local hypothesis that among the sub-cells at hand equal hashes mean equal cells; `o` any of the 6 valid option sets;
+`ord` what `Cell.order` returns; `hn`/`hP` the format's own limits (size ≤ 4 bytes, off_bytes ≤ 8 bytes).
+Then `to_boc` returns bytes `bs` and `Cell.from_boc` of `bs`, of `bs.hex()` and of `b64encode(bs)` — input-form detection as
+modelled in Model/BocForms.lean (`fromBocAny`) and, independently, in Model/BocParse.lean (`fromBocInput`) — returns exactly
+the one root `(t, p.info)`: the same tree (identical data bits, cell types and references, recursively) carrying the
+identical cached hashes / depths / level mask (identical hash). -/
+theorem c03_roundtrip (H : Bytes → Bytes) (t : Cell) (wf : TreeWF H t) (ty : Typed t) (p : PCell)
+    (hb : Cell.build H t = some p) (nc : NoCollision p) (fuel : Nat) (ord : List PCell) (h : p.order fuel = some ord)
+    (o : Opts) (hv : o.valid = true) (hn : ord.length < 2 ^ 32)
+    (hP : (payloadOf (sizeW (orderRecs ord)) (orderRecs ord)).length * 2 < 2 ^ 64) :
+    ∃ bs, p.toBoc fuel o = some bs ∧
+      BocParse.fromBoc H bs = some [(t, p.info)] ∧
+      (∀ form ∈ [Sum.inl bs, Sum.inr (hexEnc bs), Sum.inr (b64Enc bs)], fromBocAny H form = some [(t, p.info)]) ∧
+      (∀ inp ∈ [BocParse.BocInput.bytes bs, .str (String.ofList (hexEnc bs)), .str (String.ofList (b64Enc bs))],
+        BocParse.fromBocInput H inp = some [(t, p.info)]) := by
+  obtain ⟨htb, hfb⟩ := fromBoc_toBoc H t wf ty p hb nc fuel ord h o hv hn hP
+  obtain ⟨rest, hwf, hm⟩ := toBoc_magic p fuel ord o nc (build_ok H t p (shape_of H t wf ty) hb) h hn hP
+  rw [hm] at htb hfb
+  refine ⟨_, htb, hfb, ?_, ?_⟩
+  · intro form hf
+    simp only [fromBocAny, fromBocAnyG, forms_inputBytes rest hwf form hf, Option.bind_some]
+    exact hfb
+  · intro inp hi
+    simp only [List.mem_cons, List.not_mem_nil, or_false] at hi
+    simp only [BocParse.fromBocInput, forms_bocInit rest hwf inp hi, Option.bind_some, hfb]
+
+/-- the same with existence and termination: a spec-valid tree can always be built, `Cell.order` returns with the fuel the
+driver passes (`6·distinct cells + 2`), and then — within the format's size limits — every option set round-trips. -/
+theorem c03_roundtrip_total (H : Bytes → Bytes) (t : Cell) (wf : TreeWF H t) (ty : Typed t) :
+    ∃ p, Cell.build H t = some p ∧ ∀ (_ : NoCollision p) (fuel : Nat)
+      (_ : 6 * ((subcells p).map PCell.key).eraseDups.length + 2 ≤ fuel),
+      ∃ ord, p.order fuel = some ord ∧
+        ∀ (o : Opts), o.valid = true → ord.length < 2 ^ 32 →
+          (payloadOf (sizeW (orderRecs ord)) (orderRecs ord)).length * 2 < 2 ^ 64 →
+          ∃ bs, p.toBoc fuel o = some bs ∧ BocParse.fromBoc H bs = some [(t, p.info)] := by
+  obtain ⟨p, hb⟩ := tree_builds H t wf
+  refine ⟨p, hb, ?_⟩
+  intro nc fuel hf
+  have okp := build_ok H t p (shape_of H t wf ty) hb
+  obtain ⟨ord, ho, _⟩ := order_fuel_valid p fuel (fun c hc => (okp c hc).refs_le) nc hf
+  refine ⟨ord, ho, ?_⟩
+  intro o hv hn hP
+  obtain ⟨bs, h1, h2, _⟩ := c03_roundtrip H t wf ty p hb nc fuel ord ho o hv hn hP
+  exact ⟨bs, h1, h2⟩
+
+/-- `Cell.one_from_boc` on the three input forms of `to_boc`'s output returns the root: same tree, identical cached info. -/
+theorem c03_entry_cell (H : Bytes → Bytes) (t : Cell) (wf : TreeWF H t) (ty : Typed t) (p : PCell)
+    (hb : Cell.build H t = some p) (nc : NoCollision p) (fuel : Nat) (ord : List PCell) (h : p.order fuel = some ord)
+    (o : Opts) (hv : o.valid = true) (hn : ord.length < 2 ^ 32)
+    (hP : (payloadOf (sizeW (orderRecs ord)) (orderRecs ord)).length * 2 < 2 ^ 64) :
+    ∃ bs, p.toBoc fuel o = some bs ∧
+      ∀ form ∈ [Sum.inl bs, Sum.inr (hexEnc bs), Sum.inr (b64Enc bs)], cellOne H form = some (t, p.info) := by
+  obtain ⟨bs, h1, _, h3, _⟩ := c03_roundtrip H t wf ty p hb nc fuel ord h o hv hn hP
+  refine ⟨bs, h1, fun form hf => ?_⟩
+  have := h3 form hf
+  simp only [fromBocAny] at this
+  simp [cellOne, cellOneG, this]
+
+/-- `Slice.one_from_boc` (= `cells[0].begin_parse()`) on the three input forms returns the untouched image of the root: all
+its data bits and all its references (the child trees), nothing consumed. -/
+theorem c03_entry_slice (H : Bytes → Bytes) (kind : Int) (bits : Bits) (refs : List Cell)
+    (wf : TreeWF H (.mk kind bits refs)) (ty : Typed (.mk kind bits refs)) (p : PCell)
+    (hb : Cell.build H (.mk kind bits refs) = some p) (nc : NoCollision p) (fuel : Nat) (ord : List PCell)
+    (h : p.order fuel = some ord) (o : Opts) (hv : o.valid = true) (hn : ord.length < 2 ^ 32)
+    (hP : (payloadOf (sizeW (orderRecs ord)) (orderRecs ord)).length * 2 < 2 ^ 64) :
+    ∃ bs, p.toBoc fuel o = some bs ∧
+      ∀ form ∈ [Sum.inl bs, Sum.inr (hexEnc bs), Sum.inr (b64Enc bs)], sliceOne H form = some ⟨bits, refs⟩ := by
+  obtain ⟨bs, h1, _, h3, _⟩ := c03_roundtrip H _ wf ty p hb nc fuel ord h o hv hn hP
+  refine ⟨bs, h1, fun form hf => ?_⟩
+  have := h3 form hf
+  simp only [fromBocAny] at this
+  simp [sliceOne, sliceOneG, this, beginParse, beginParseG]
+
+/-- `Builder.one_from_boc` (= `cells[0].to_builder()`) on the three input forms: for an ORDINARY root it returns the builder
+holding exactly the root's data bits and references (`end_cell()` gives the root back); for an EXOTIC root it raises
+(`to_builder` refuses exotic cells) — the recorded known finding `builder-entry:exotic-root-refused`: the Builder entry point
+cannot round-trip a bag whose root is exotic, the Cell and Slice entry points do. -/
+theorem c03_entry_builder (H : Bytes → Bytes) (kind : Int) (bits : Bits) (refs : List Cell)
+    (wf : TreeWF H (.mk kind bits refs)) (ty : Typed (.mk kind bits refs)) (p : PCell)
+    (hb : Cell.build H (.mk kind bits refs) = some p) (nc : NoCollision p) (fuel : Nat) (ord : List PCell)
+    (h : p.order fuel = some ord) (o : Opts) (hv : o.valid = true) (hn : ord.length < 2 ^ 32)
+    (hP : (payloadOf (sizeW (orderRecs ord)) (orderRecs ord)).length * 2 < 2 ^ 64) :
+    ∃ bs, p.toBoc fuel o = some bs ∧
+      ∀ form ∈ [Sum.inl bs, Sum.inr (hexEnc bs), Sum.inr (b64Enc bs)],
+        builderOne H form = (if kind = kOrdinary then some ⟨bits, refs⟩ else none) := by
+  obtain ⟨bs, h1, _, h3, _⟩ := c03_roundtrip H _ wf ty p hb nc fuel ord h o hv hn hP
+  obtain ⟨l1, l2⟩ := root_limits H kind bits refs wf ty
+  refine ⟨bs, h1, fun form hf => ?_⟩
+  have h3' := h3 form hf
+  simp only [fromBocAny] at h3'
+  by_cases hk : kind = kOrdinary
+  · simp [builderOne, builderOneG, h3', toBuilder, toBuilderG, hk, c03_store_cell bits refs l1 l2]
+  · simp [builderOne, builderOneG, h3', toBuilder, toBuilderG, hk]
+
+/-! ## Non-vacuity
+
+A DAG WITH SHARING meets all hypotheses of `c03_roundtrip` at once (toy hash `H = id`, injective, as in C04's example): the
+one-bit leaf is referenced by both inner cells and by the root — 6 tree nodes, 4 distinct cells. -/
+
+def dagTree : Cell :=
+  .mk (-1) [true, false, true]
+    [.mk (-1) [false] [.mk (-1) [true] []], .mk (-1) [true, true] [.mk (-1) [true] []], .mk (-1) [true] []]
+
+/-- evaluated once by the kernel: the built objects are collision-free, `Cell.order` needs fewer than 50 loop iterations and
+lists 4 distinct cells, the payload is within the format's limit -/
+theorem dagTree_checks :
+    (match Cell.build id dagTree with
+     | some p => noCollisionB p && decide (cost p ([], []) + 1 ≤ 50) && decide ((dfs p ([], [])).2.length = 4) &&
+         decide ((payloadOf (sizeW (orderRecs (dfs p ([], [])).2)) (orderRecs (dfs p ([], [])).2)).length * 2 < 2 ^ 64)
+     | none => false) = true := by decide +kernel
+
+theorem dagTree_ok : TreeWF id dagTree ∧ Typed dagTree := by
+  have h := ord_treeWF id dagTree (by simp [dagTree, Proofs.OrdCell.OrdWF, Proofs.OrdCell.OrdWFs])
+    (by simp [dagTree, Proofs.OrdCell.ordDepth, Proofs.OrdCell.ordDepthMax])
+  exact ⟨h.1, h.2.1⟩
+
+/-- all hypotheses of `c03_roundtrip` hold for the DAG with sharing -/
+theorem dagTree_hyps : ∃ p ord, Cell.build id dagTree = some p ∧ NoCollision p ∧ p.order 50 = some ord ∧ ord.length = 4 ∧
+    (payloadOf (sizeW (orderRecs ord)) (orderRecs ord)).length * 2 < 2 ^ 64 := by
+  obtain ⟨p, hp⟩ := tree_builds id dagTree dagTree_ok.1
+  have hc := dagTree_checks
+  rw [hp] at hc
+  simp only [Bool.and_eq_true, decide_eq_true_eq] at hc
+  obtain ⟨⟨⟨c1, c2⟩, c3⟩, c4⟩ := hc
+  have nc := noCollision_of_B p c1
+  exact ⟨p, _, hp, nc, order_eq_dfs p nc 50 c2, c3, c4⟩
+
+example : TreeWF id dagTree ∧ Typed dagTree ∧ ∃ p ord, Cell.build id dagTree = some p ∧ NoCollision p ∧
+    p.order 50 = some ord ∧ ord.length < 2 ^ 32 ∧
+    (payloadOf (sizeW (orderRecs ord)) (orderRecs ord)).length * 2 < 2 ^ 64 := by
+  obtain ⟨p, ord, h1, h2, h3, h4, h5⟩ := dagTree_hyps
+  exact ⟨dagTree_ok.1, dagTree_ok.2, p, ord, h1, h2, h3, by omega, h5⟩
+
+/-- … and therefore the conclusion: with index + CRC + cache bits, `to_boc` of the shared DAG parses back — from the bytes, the
+hex text and the base64 text — to the same tree with the identical cached info; the Slice and Builder entry points return
+the root's bits and its three child trees. -/
+example : ∃ p bs, Cell.build id dagTree = some p ∧ p.toBoc 50 ⟨true, true, true, 0⟩ = some bs ∧
+    (∀ form ∈ [Sum.inl bs, Sum.inr (hexEnc bs), Sum.inr (b64Enc bs)],
+      fromBocAny id form = some [(dagTree, p.info)] ∧
+      sliceOne id form = some ⟨[true, false, true],
+        [.mk (-1) [false] [.mk (-1) [true] []], .mk (-1) [true, true] [.mk (-1) [true] []], .mk (-1) [true] []]⟩ ∧
+      builderOne id form = some ⟨[true, false, true],
+        [.mk (-1) [false] [.mk (-1) [true] []], .mk (-1) [true, true] [.mk (-1) [true] []], .mk (-1) [true] []]⟩) := by
+  obtain ⟨p, ord, h1, h2, h3, h4, h5⟩ := dagTree_hyps
+  obtain ⟨wf, ty⟩ := dagTree_ok
+  have hv : (⟨true, true, true, 0⟩ : Opts).valid = true := by decide
+  obtain ⟨bs, r1, _, r3, _⟩ := c03_roundtrip id dagTree wf ty p h1 h2 50 ord h3 _ hv (by omega) h5
+  obtain ⟨bs', s1, s2⟩ := c03_entry_slice id _ _ _ wf ty p h1 h2 50 ord h3 _ hv (by omega) h5
+  obtain ⟨bs'', b1, b2⟩ := c03_entry_builder id _ _ _ wf ty p h1 h2 50 ord h3 _ hv (by omega) h5
+  have e1 : bs' = bs := Option.some.inj (s1.symm.trans r1)
+  have e2 : bs'' = bs := Option.some.inj (b1.symm.trans r1)
+  rw [e1] at s2; rw [e2] at b2
+  refine ⟨p, bs, h1, r1, fun form hf => ⟨r3 form hf, s2 form hf, ?_⟩⟩
+  have := b2 form hf
+  simpa [kOrdinary] using this
+
 example : Bytes.WF [0xb5, 0xee, 0x9c, 0x72, 0x01, 0x02] := by decide
 
 end TonVerif.Properties.C03
